@@ -208,28 +208,53 @@ func deepEqualAt(a, b interface{}, depth int) bool {
 	isSeq := func(v reflect.Value) bool {
 		return v.Kind() == reflect.Slice || v.Kind() == reflect.Array
 	}
-	if isSeq(va) && isSeq(vb) {
-		if depth > 64 {
-			// Nested this deep a sequence may well contain itself:
-			// reflect.DeepEqual detects cycles.
-			return reflect.DeepEqual(a, b)
+	// Elements are compared with equal(); sequences and maps nested in
+	// sequences or maps are compared the same way, whatever their Go types.
+	elemEqual := func(x, y reflect.Value) (equalElems, comparable bool) {
+		if !x.CanInterface() || !y.CanInterface() {
+			return false, false
 		}
+		xi, yi := x.Interface(), y.Interface()
+		vx, vy := reflect.ValueOf(xi), reflect.ValueOf(yi)
+		if (isSeq(vx) && isSeq(vy)) || (vx.Kind() == reflect.Map && vy.Kind() == reflect.Map) {
+			return deepEqualAt(xi, yi, depth+1), true
+		}
+		return equal(xi, yi).(bool), true
+	}
+	if depth > 64 {
+		// Nested this deep a value may well contain itself:
+		// reflect.DeepEqual detects cycles.
+		return reflect.DeepEqual(a, b)
+	}
+	if isSeq(va) && isSeq(vb) {
 		if va.Len() != vb.Len() {
 			return false
 		}
 		for i := 0; i < va.Len(); i++ {
-			x, y := va.Index(i), vb.Index(i)
-			if !x.CanInterface() || !y.CanInterface() {
+			eq, ok := elemEqual(va.Index(i), vb.Index(i))
+			if !ok {
 				return reflect.DeepEqual(a, b)
 			}
-			xi, yi := x.Interface(), y.Interface()
-			if isSeq(reflect.ValueOf(xi)) && isSeq(reflect.ValueOf(yi)) {
-				if !deepEqualAt(xi, yi, depth+1) {
-					return false
-				}
-				continue
+			if !eq {
+				return false
 			}
-			if !equal(xi, yi).(bool) {
+		}
+		return true
+	}
+	if va.Kind() == reflect.Map && vb.Kind() == reflect.Map && va.Type().Key() == vb.Type().Key() {
+		if va.IsNil() != vb.IsNil() || va.Len() != vb.Len() {
+			return false
+		}
+		for _, k := range va.MapKeys() {
+			y := vb.MapIndex(k)
+			if !y.IsValid() {
+				return false
+			}
+			eq, ok := elemEqual(va.MapIndex(k), y)
+			if !ok {
+				return reflect.DeepEqual(a, b)
+			}
+			if !eq {
 				return false
 			}
 		}
